@@ -87,6 +87,16 @@ def check_config(cfg):
     require(np.asarray(out2).shape == np.asarray(out).shape and np.array_equal(np.asarray(out2), np.asarray(out)), "set_params:other-output-than-constructor",
             "an instance configured with set_params transforms differently from one built with the same values", facts)
     require(list(ef2.get_feature_names_out()) == list(ef.get_feature_names_out()), "set_params:other-names-than-constructor", "", facts)
+    # the dtype of the result follows the matrix being transformed, not the one seen by fit (a model trained on a float32 sample and
+    # applied to float64 data, and the reverse) - what scikit-learn's PolynomialFeatures does
+    ef3 = _ef.ExtendedFeatures(kind=cfg["kind"], poly_degree=cfg["degree"], poly_interaction_only=cfg["interaction_only"], poly_include_bias=cfg["include_bias"])
+    out3 = np.asarray(ef3.fit(X.astype(np.float32)).transform(X))
+    require(out3.dtype == np.asarray(out).dtype and np.array_equal(out3, np.asarray(out)), "dtype:fitted-on-float32-applied-to-float64",
+            "fitted on a float32 copy, transform of the float64 matrix has dtype %s and differs from the float64-fitted model's by %r" % (
+                out3.dtype, float(np.abs(out3.astype(np.float64) - np.asarray(out, dtype=np.float64)).max()) if out3.shape == np.asarray(out).shape else None), facts)
+    out4 = np.asarray(ef.transform(X.astype(np.float32)))
+    ref4 = np.asarray(PolynomialFeatures(degree=cfg["degree"], interaction_only=cfg["interaction_only"], include_bias=cfg["include_bias"]).fit(X).transform(X.astype(np.float32)))
+    require(out4.dtype == ref4.dtype, "dtype:fitted-on-float64-applied-to-float32", "ExtendedFeatures gives %s, PolynomialFeatures %s" % (out4.dtype, ref4.dtype), facts)
     names = list(ef.get_feature_names_out())
     require(len(names) == out.shape[1], "names:count", "%d names for %d columns" % (len(names), out.shape[1]), facts)
     seen = set()
